@@ -199,7 +199,7 @@ def gen_c10(seed, size="quick"):
     dom = r.choice([8, 15, 30])
     edb(t, r, r.choice([20, 60, 150]) if size == "quick" else r.choice([60, 150, 300]), dom)
     t.meta["choice"] = []
-    kinds = r.sample(["single", "two", "composite", "tree", "recursive_pick", "agg", "agg2", "idx", "idx2", "exists", "nonprefix", "arith", "withfacts", "rec3", "tree_helper", "pingpong", "repeat", "inline_body"],
+    kinds = r.sample(["single", "two", "composite", "tree", "recursive_pick", "agg", "agg2", "idx", "idx2", "exists", "nonprefix", "arith", "withfacts", "rec3", "tree_helper", "pingpong", "repeat", "inline_body", "subkey"],
                      r.randrange(1, 4))
     for kind in kinds:
         if kind == "nonprefix":
@@ -224,6 +224,15 @@ def gen_c10(seed, size="quick"):
             t.rules.append({"head": ("pickf", [V("x"), V("y")]), "body": [("atom", "e1", [V("x"), V("y")])]})
             t.meta["choice"].append({"rel": "pickf", "keys": [[0], [1]]})
             t.outputs.append("pickf")
+        elif kind == "subkey":
+            # a composite key declared before one of its sub-keys (and the other way round), non-recursive and recursive
+            order = r.choice(["(k,a), k", "k, (k,a)", "(k,a,b), (a,b)", "(k,a), a, k"])
+            keys = {"(k,a), k": [[0, 1], [0]], "k, (k,a)": [[0], [0, 1]], "(k,a,b), (a,b)": [[0, 1, 2], [1, 2]], "(k,a), a, k": [[0, 1], [1], [0]]}[order]
+            t.decls.append(".decl psk(k:number,a:number,b:number) choice-domain %s" % order)
+            t.rules.append({"head": ("psk", [V("k"), V("a"), V("b")]), "body": [("atom", "e2", [V("k"), V("a"), V("b")])]})
+            t.rules.append({"head": ("psk", [V("y"), V("a"), V("x")]), "body": [("atom", "psk", [V("x"), V("a"), U]), ("atom", "e1", [V("x"), V("y")])]})
+            t.meta["choice"].append({"rel": "psk", "keys": keys})
+            t.outputs.append("psk")
         elif kind == "repeat":
             # a repeated variable and a constant in the heads of a choice relation
             t.decls.append(".decl prr(x:number,y:number,z:number) choice-domain x, (y,z)")
@@ -387,14 +396,15 @@ def check_c10(t_meta, rules, edb_sets, outputs):
 
 
 # ---------------------------------------------------------------------------------------- C11 subsumption
-def gen_c11(seed, size="quick"):
+def gen_c11(seed, size="quick", always=()):
     r = random.Random(seed)
     t = Tmpl()
     dom = r.choice([6, 10, 16])
     edb(t, r, r.choice([15, 40, 90]) if size == "quick" else r.choice([40, 90, 200]), dom)
     t.meta["subsumed"] = []
-    kinds = r.sample(["shortest", "pareto", "latest", "shortest2", "countdown", "via_helper", "merge", "loaded", "loaded_rec", "infacts", "guarded", "const_head", "secondary"],
+    kinds = r.sample(["shortest", "pareto", "latest", "shortest2", "countdown", "via_helper", "merge", "loaded", "loaded_rec", "infacts", "guarded", "const_head", "secondary", "secondary3"],
                      r.randrange(1, 3))
+    kinds = list(always) + [k for k in kinds if k not in always]
     for kind in kinds:
         if kind == "shortest":
             bound = r.choice([12, 20, 30])
@@ -465,6 +475,21 @@ def gen_c11(seed, size="quick"):
             t.meta["subsumed"].append({"rel": "sd", "dom": "lt1", "monotone": True})
             t.meta.setdefault("downstream", []).extend(["byd", "byx"])
             t.outputs += ["sd", "byd", "byx"]
+        elif kind == "secondary3":
+            # cost-first shortest paths read by three later rules through three different indexes
+            bound = r.choice([10, 16])
+            t.decls.append(".decl s3(c:number,x:number,y:number) btree_delete")
+            t.decls += [".decl from3(x:number,c:number,y:number)", ".decl into3(y:number,c:number)", ".decl cost3(c:number,x:number)"]
+            t.rules.append({"head": ("s3", [V("w"), V("x"), V("y")]), "body": [("atom", "ew", [V("x"), V("y"), V("w")])]})
+            t.rules.append({"head": ("s3", [ADD(V("c"), V("w")), V("x"), V("z")]),
+                            "body": [("atom", "s3", [V("c"), V("x"), V("y")]), ("atom", "ew", [V("y"), V("z"), V("w")]), ("cmp", "<", ADD(V("c"), V("w")), C(bound))]})
+            t.rules.append({"head": ("from3", [V("x"), V("c"), V("y")]), "body": [("atom", "n1", [V("x")]), ("atom", "s3", [V("c"), V("x"), V("y")])]})
+            t.rules.append({"head": ("into3", [V("y"), V("c")]), "body": [("atom", "n1", [V("y")]), ("atom", "s3", [V("c"), U, V("y")])]})
+            t.rules.append({"head": ("cost3", [V("c"), V("x")]), "body": [("atom", "n1", [V("c")]), ("atom", "s3", [V("c"), V("x"), U])]})
+            t.extra_text.append("s3(c1,x,y) <= s3(c2,x,y) :- c2 < c1.")
+            t.meta["subsumed"].append({"rel": "s3", "dom": "lt_first", "monotone": True})
+            t.meta.setdefault("downstream", []).extend(["from3", "into3", "cost3"])
+            t.outputs += ["s3", "from3", "into3", "cost3"]
         elif kind == "infacts":
             # comparable facts in the program text, optionally with a recursive rule
             t.decls.append(".decl lf(x:number,d:number) btree_delete")
@@ -540,6 +565,8 @@ def dominated(dom, a, b, guard=()):
         return False
     if dom == "lt1":
         return a[0] == b[0] and b[1] < a[1]
+    if dom == "lt_first":
+        return a[1:] == b[1:] and b[0] < a[0]
     if dom == "lt1_guard":
         return a[0] == b[0] and b[1] < a[1] and a[0] in guard
     if dom == "lt2":
